@@ -215,7 +215,7 @@ func (p *Program) Func(rel, name string) *ssa.Function {
 		if !isF || f.Signature.Recv() != nil || f.Synthetic != "" {
 			continue
 		}
-		if types.TypeString(f.Signature, func(tp *types.Package) string { return tp.Name() }) == want {
+		if SigString(f.Signature) == want {
 			found = f
 			n++
 		}
@@ -458,5 +458,26 @@ func (p *Program) NamedTypes() []*types.Named {
 		}
 	}
 	sort.Slice(out, func(i, j int) bool { return out[i].String() < out[j].String() })
+	return out
+}
+
+// SigString renders a signature by its parameter and result types only (no names), packages by their name.
+func SigString(sig *types.Signature) string {
+	q := func(tp *types.Package) string { return tp.Name() }
+	var ps, rs []string
+	for i := 0; i < sig.Params().Len(); i++ {
+		ps = append(ps, types.TypeString(sig.Params().At(i).Type(), q))
+	}
+	for i := 0; i < sig.Results().Len(); i++ {
+		rs = append(rs, types.TypeString(sig.Results().At(i).Type(), q))
+	}
+	out := "func(" + strings.Join(ps, ", ") + ")"
+	switch len(rs) {
+	case 0:
+	case 1:
+		out += " " + rs[0]
+	default:
+		out += " (" + strings.Join(rs, ", ") + ")"
+	}
 	return out
 }
